@@ -30,7 +30,7 @@
 (***************************************************************************)
 EXTENDS Integers, Sequences, FiniteSets, TLC
 
-Range(f) == {f[i] : i \in DOMAIN f}
+RangeOf(f) == {f[i] : i \in DOMAIN f}
 Min2(a, b) == IF a < b THEN a ELSE b
 
 NCand(c) == Len(c.cands)
@@ -233,23 +233,26 @@ AlgorithmLiveSecondTest(c) == MovingOn(c, DbOrder(c), TRUE, TRUE)
 EucOrder(c, euc) == SortSeq([i \in Idx(c) |-> i], LAMBDA a, b : euc[a] < euc[b])
 
 \* side condition stated by the properties C06/C04: the nmaxi Euclidean-nearest samples are
-\* all admissible (all the samples when there are fewer than nmaxi)
+\* all admissible (all the samples when there are fewer than nmaxi).  The parameters must be
+\* consistent (nmini <= nmaxi): a search that examines nmaxi samples only cannot know whether
+\* nmini samples qualify.
 BallSide(c, euc) ==
-  /\ c.nmaxi >= 1
+  /\ c.nmaxi >= 1 /\ c.nmini <= c.nmaxi
   /\ LET o == EucOrder(c, euc)
-     IN \A k \in 1..Min2(c.nmaxi, NCand(c)) : o[k] \in Admissible(c)
+         adm == Admissible(c)
+     IN \A k \in 1..Min2(c.nmaxi, NCand(c)) : o[k] \in adm
 
 \* what the code does: Ball::getIndices(target, nmaxi) fails (no index) when nmaxi exceeds the
 \* number of samples of the tree; otherwise the nmaxi nearest in increasing Euclidean distance
 BallEligible(c, euc) == IF c.nmaxi > NCand(c) THEN <<>> ELSE SubSeq(EucOrder(c, euc), 1, c.nmaxi)
 BallAlgorithm(c, euc) == MovingOn(c, BallEligible(c, euc), FALSE, FALSE)
 
-\* why the pre-selection differs from the definition although the side condition holds
-BallCause(c, euc, isoMetric) ==
-  IF BallAlgorithm(c, euc) = Definition(c) THEN "none"
+\* why the pre-selection (result `model`) differs from the definition `def` although the side
+\* condition holds
+BallCause(c, euc, model, def) ==
+  IF model = def THEN "none"
   ELSE IF c.nmaxi > NCand(c) THEN "k-exceeds-n"
-  ELSE IF c.nmini > c.nmaxi THEN "nmini-gt-nmaxi"
-  ELSE IF ~isoMetric /\ BallAlgorithm(c, [i \in Idx(c) |-> Rank(c, i)]) = Definition(c) THEN "metric"
+  ELSE IF RangeOf(BallEligible(c, euc)) # Closest(c, Idx(c), c.nmaxi) THEN "metric"
   ELSE IF c.nsect > 1 THEN "sectors"
   ELSE "other"
 
@@ -259,7 +262,12 @@ BallCause(c, euc, isoMetric) ==
 Categories(c) ==
   LET adm == Admissible(c)
       sel == Selected(c)
+      nadm == Cardinality(adm)
       some(P(_)) == \E i \in Idx(c) : P(i)
+      cut == c.nsect > 1 /\ c.nsmax > 0
+      per == [s \in Sectors(c) |-> PerSector(c, s)]
+      total == LET S[s \in 0..c.nsect] == IF s = 0 THEN 0 ELSE S[s - 1] + Cardinality(per[s - 1]) IN S[c.nsect]
+      over == c.nmaxi > 0 /\ total > c.nmaxi /\ nadm >= c.nmini
   IN [ inactive   |-> some(LAMBDA i : ~c.cands[i].active),
        undefined  |-> some(LAMBDA i : ~c.cands[i].defined),
        checker    |-> some(LAMBDA i : ~c.cands[i].passesCheckers),
@@ -267,14 +275,14 @@ Categories(c) ==
        xvalidExcl |-> some(LAMBDA i : Excluded(c, i) /\ ~c.kfold),
        kfoldExcl  |-> some(LAMBDA i : Excluded(c, i) /\ c.kfold),
        flagKept   |-> some(LAMBDA i : c.cands[i].isTargetOrFold /\ i \in sel),
-       nminiEmpty |-> Cardinality(adm) < c.nmini /\ adm # {},
-       nsmaxCut   |-> \E s \in Sectors(c) : PerSector(c, s) # InSector(c, s),
-       quotaCut   |-> c.nsect > 1 /\ c.nmaxi > 0 /\ Total(c) > c.nmaxi /\ Cardinality(adm) >= c.nmini,
-       unevenQuota |-> c.nsect > 1 /\ c.nmaxi > 0 /\ Total(c) > c.nmaxi /\ Cardinality(adm) >= c.nmini
-                       /\ \E s, t \in Sectors(c) : Avail(c, s) > Cardinality(sel \cap PerSector(c, s))
-                                                   /\ Cardinality(sel \cap PerSector(c, t)) > Cardinality(sel \cap PerSector(c, s)),
-       singleCut  |-> c.nsect = 1 /\ c.nmaxi > 0 /\ Cardinality(adm) > c.nmaxi /\ Cardinality(adm) >= c.nmini,
+       nminiEmpty |-> nadm < c.nmini /\ adm # {},
+       nsmaxCut   |-> cut /\ \E s \in Sectors(c) : per[s] # InSector(c, s),
+       quotaCut   |-> c.nsect > 1 /\ over,
+       unevenQuota |-> c.nsect > 1 /\ over
+                       /\ \E s, t \in Sectors(c) : Cardinality(per[s]) > Cardinality(sel \cap per[s])
+                                                   /\ Cardinality(sel \cap per[t]) > Cardinality(sel \cap per[s]),
+       singleCut  |-> c.nsect = 1 /\ over,
        allKept    |-> sel = adm /\ adm # {},
        reordered  |-> \E i, j \in Idx(c) : i < j /\ Rank(c, i) > Rank(c, j),
-       secondTestDead |-> AlgorithmLiveSecondTest(c) # Algorithm(c) ]
+       secondTestDead |-> cut /\ AlgorithmLiveSecondTest(c) # InDbOrder(c, sel) ]
 =============================================================================
